@@ -6,6 +6,8 @@ Local Open Scope N_scope.
 
 Definition LIM : N := 1073741824.    (* 2^30: buffer requests up to this size always succeed *)
 
+Set Default Proof Using "All".
+
 Section Ops.
 Variables (M TH PG OV jk : N).
 Hypothesis M_pos : 1 <= M.
@@ -15,6 +17,22 @@ Hypothesis PG_le : PG <= 1048576.
 Hypothesis OV_lt : OV < PG.
 Hypothesis M_le : M <= 1048576.
 
+Local Notation inv_len := (StrCore.inv_len M TH PG OV jk M_pos TH_ge PG_pos PG_le OV_lt M_le).
+Local Notation inv_lt := (StrCore.inv_lt M TH PG OV jk M_pos TH_ge PG_pos PG_le OV_lt M_le).
+Local Notation inv_nul := (StrCore.inv_nul M TH PG OV jk M_pos TH_ge PG_pos PG_le OV_lt M_le).
+Local Notation inv_short_le := (StrCore.inv_short_le M TH PG OV jk M_pos TH_ge PG_pos PG_le OV_lt M_le).
+Local Notation lenN_abs := (StrCore.lenN_abs M TH PG OV jk M_pos TH_ge PG_pos PG_le OV_lt M_le).
+Local Notation commit_spec := (StrCore.commit_spec M TH PG OV jk M_pos TH_ge PG_pos PG_le OV_lt M_le).
+Local Notation inv_empty1 := (StrCore.inv_empty1 M TH PG OV jk M_pos TH_ge PG_pos PG_le OV_lt M_le).
+Local Notation inv_clear_short := (StrCore.inv_clear_short M TH PG OV jk M_pos TH_ge PG_pos PG_le OV_lt M_le).
+Local Notation inv_clear_and_flush := (StrCore.inv_clear_and_flush M TH PG OV jk M_pos TH_ge PG_pos PG_le OV_lt M_le).
+Local Notation ensure_enough := (StrCore.ensure_enough M TH PG OV jk M_pos TH_ge PG_pos PG_le OV_lt M_le).
+Local Notation inv_fin := (StrCore.inv_fin M TH PG OV jk M_pos TH_ge PG_pos PG_le OV_lt M_le).
+Local Notation ensure_grow := (StrCore.ensure_grow M TH PG OV jk M_pos TH_ge PG_pos PG_le OV_lt M_le).
+Local Notation ensure_noretain := (StrCore.ensure_noretain M TH PG OV jk M_pos TH_ge PG_pos PG_le OV_lt M_le).
+Local Notation set_len_short_spec := (StrCore.set_len_short_spec M TH PG OV jk M_pos TH_ge PG_pos PG_le OV_lt M_le).
+Local Notation ensure_shrink := (StrCore.ensure_shrink M TH PG OV jk M_pos TH_ge PG_pos PG_le OV_lt M_le).
+Local Notation ensure_ok := (StrCore.ensure_ok M TH PG OV jk M_pos TH_ge PG_pos PG_le OV_lt M_le).
 Local Notation slen := (slen M).
 Local Notation cap := (cap M).
 Local Notation abs := (abs M).
@@ -22,6 +40,31 @@ Local Notation inv := (inv M).
 Local Notation commit := (commit M).
 Local Notation ensure := (ensure M TH PG OV jk true).
 Local Notation empty1 := (empty1 M jk).
+Local Notation clear := (clear M).
+Local Notation set_cstr := (set_cstr M TH PG OV jk true).
+Local Notation cregion := (cregion M).
+Local Notation set_from := (set_from M TH PG OV jk true).
+Local Notation append_s := (append_s M TH PG OV jk true).
+Local Notation append_c := (append_c M TH PG OV jk true).
+Local Notation append_ch := (append_ch M TH PG OV jk true).
+Local Notation clear_and_flush := (clear_and_flush M jk).
+Local Notation osrc := (osrc M).
+Local Notation insert_aux := (insert_aux M TH PG OV jk true).
+Local Notation insert_chars := (insert_chars M TH PG OV jk true).
+Local Notation prealloc := (prealloc M TH PG OV jk true).
+Local Notation shrink_to_fit := (shrink_to_fit M TH PG OV jk true).
+Local Notation trunc_chars := (trunc_chars M).
+Local Notation trunc_to := (trunc_to M).
+Local Notation flatten1 := (flatten1 M).
+Local Notation unflatten1 := (unflatten1 M TH PG OV jk true).
+Local Notation ctor_copy := (ctor_copy M TH PG OV jk true).
+Local Notation ctor_sub := (ctor_sub M TH PG OV jk true).
+Local Notation ctor_copy_pre := (ctor_copy_pre M TH PG OV jk true).
+Local Notation ctor_pre_lit := (ctor_pre_lit M TH PG OV jk true).
+Local Notation cut := (cut M).
+Local Notation map_content := (map_content M).
+Local Notation reverse1 := (reverse1 M).
+Local Notation replace_ch1 := (replace_ch1 M).
 
 Lemma u32_small x : x < 4294967296 -> u32 x = x.
 Proof. intros H. unfold u32. now apply N.mod_small. Qed.
@@ -35,7 +78,7 @@ Proof.
   rewrite nthN_app_r by lia. now rewrite N.sub_diag.
 Qed.
 Lemma src_ok_of s : inv s -> src_ok (src_of M s).
-Proof. intros I. unfold src_ok, src_of. cbn [fst snd]. rewrite (inv_len _ _ I). split; [apply (inv_lt _ _ I)|apply (inv_nul _ _ I)]. Qed.
+Proof. intros I. unfold src_ok, src_of. cbn [fst snd]. rewrite (inv_len _ I). split; [apply (inv_lt _ I)|apply (inv_nul _ I)]. Qed.
 Lemma src_bytes_lit l : src_bytes (src_lit l) = l.
 Proof. unfold src_bytes, src_lit. cbn [fst snd]. apply takeN_app_exact. Qed.
 Lemma src_bytes_of s : src_bytes (src_of M s) = abs s.
@@ -67,8 +110,8 @@ Lemma ensure_grow_ok s req :
   exists s', ensure s req true false = (StOk, s') /\ inv s' /\ req <= cap s' /\ slen s' = slen s /\
              abs s' = abs s /\ takeN (slen s + 1) (buf s') = takeN (slen s + 1) (buf s).
 Proof.
-  intros I R. pose proof (ensure_grow M TH PG OV jk M_pos s req I) as G.
-  pose proof (ensure_ok M TH PG OV jk M_pos TH_ge PG_pos PG_le OV_lt M_le s req true I R) as K.
+  intros I R. pose proof (ensure_grow s req I) as G.
+  pose proof (ensure_ok s req true I R) as K.
   destruct (ensure s req true false) as [e s']. cbn [fst] in K. subst e.
   destruct G as (G1 & G2 & G3 & G4). exists s'. splits; trivial. now apply abs_of_prefix.
 Qed.
@@ -76,8 +119,8 @@ Lemma ensure_noretain_ok s req :
   inv s -> req <= LIM ->
   exists s', ensure s req false false = (StOk, s') /\ inv s' /\ req <= cap s' /\ (req <= cap s -> s' = s).
 Proof.
-  intros I R. pose proof (ensure_noretain M TH PG OV jk M_pos s req I) as G.
-  pose proof (ensure_ok M TH PG OV jk M_pos TH_ge PG_pos PG_le OV_lt M_le s req false I R) as K.
+  intros I R. pose proof (ensure_noretain s req I) as G.
+  pose proof (ensure_ok s req false I R) as K.
   destruct (ensure s req false false) as [e s']. cbn [fst] in K. subst e.
   destruct G as (G1 & G2 & G3). exists s'. splits; trivial.
 Qed.
@@ -88,9 +131,9 @@ Lemma commit_set s data n :
   let s' := commit s (upd (blit (buf s) 0 data) n 0) n in
   inv s' /\ abs s' = data /\ slen s' = n /\ cap s' = cap s /\ is_long s' = is_long s.
 Proof.
-  intros I L C s'. pose proof (inv_len _ _ I) as Ln.
+  intros I L C s'. pose proof (inv_len _ I) as Ln.
   assert (Lb : lenN (blit (buf s) 0 data) = cap s) by (rewrite lenN_blit; lia).
-  destruct (commit_spec M M_pos s (upd (blit (buf s) 0 data) n 0) n I) as (A1 & A2 & A3 & A4 & A5 & _).
+  destruct (commit_spec s (upd (blit (buf s) 0 data) n 0) n I) as (A1 & A2 & A3 & A4 & A5 & _).
   - rewrite lenN_upd; lia.
   - exact C.
   - apply nthN_upd_same. lia.
@@ -104,9 +147,9 @@ Lemma commit_append s data :
   let s' := commit s (blit (buf s) (slen s) (data ++ [0])) (slen s + lenN data) in
   inv s' /\ abs s' = abs s ++ data /\ cap s' = cap s /\ is_long s' = is_long s.
 Proof.
-  intros I C s'. pose proof (inv_len _ _ I) as Ln. pose proof (inv_lt _ _ I) as Lt.
+  intros I C s'. pose proof (inv_len _ I) as Ln. pose proof (inv_lt _ I) as Lt.
   assert (Ld : lenN (data ++ [0]) = lenN data + 1) by (rewrite lenN_app, lenN_cons, lenN_nil; lia).
-  destruct (commit_spec M M_pos s (blit (buf s) (slen s) (data ++ [0])) (slen s + lenN data) I) as (A1 & A2 & A3 & A4 & A5 & _).
+  destruct (commit_spec s (blit (buf s) (slen s) (data ++ [0])) (slen s + lenN data) I) as (A1 & A2 & A3 & A4 & A5 & _).
   - rewrite lenN_blit; lia.
   - lia.
   - rewrite nthN_blit_in by lia. replace (slen s + lenN data - slen s) with (lenN data) by lia.
@@ -115,8 +158,570 @@ Proof.
     rewrite <- (takeN_takeN_le (slen s + lenN data) (slen s + lenN (data ++ [0]))) by lia.
     rewrite takeN_blit_cover by lia.
     fold (abs s). rewrite takeN_app_ge by (rewrite lenN_abs; trivial; lia).
-    rewrite (lenN_abs M s I). f_equal.
+    rewrite (lenN_abs s I). f_equal.
     replace (slen s + lenN data - slen s) with (lenN data) by lia. apply takeN_app_exact.
+Qed.
+
+Lemma cap_lt s : inv s -> cap s < 2147483648.
+Proof. intros I. destruct s; cbn [StrModel.cap]; [lia|]. destruct I as (_ & _ & _ & I4). lia. Qed.
+
+Lemma takeN_min_len {A} n (l : list A) : takeN (N.min n (lenN l)) l = takeN n l.
+Proof. unfold takeN. f_equal. f_equal. lia. Qed.
+Lemma dropN_min_len {A} n (l : list A) : dropN (N.min n (lenN l)) l = dropN n l.
+Proof. unfold dropN. f_equal. f_equal. lia. Qed.
+
+Lemma clear_spec s : inv s -> inv (clear s) /\ abs (clear s) = [] /\ cap (clear s) = cap s /\ is_long (clear s) = is_long s.
+Proof.
+  intros I. unfold StrModel.clear.
+  assert (C0 : 0 < cap s) by (pose proof (inv_lt _ I); lia).
+  destruct (commit_set s [] 0 I eq_refl C0) as (A1 & A2 & A3 & A4 & A5).
+  rewrite (blit_nil (buf s) 0) in *. splits; trivial.
+Qed.
+
+Lemma cstr_region_self s k : inv s -> nulfree (abs s) -> k <= slen s -> cstr (dropN k (buf s)) = dropN k (abs s).
+Proof.
+  intros I F K. pose proof (inv_len _ I) as Ln. pose proof (inv_lt _ I) as Lt.
+  assert (E : takeN (slen s - k) (dropN k (buf s)) = dropN k (abs s)).
+  { rewrite takeN_dropN_comm. unfold StrModel.abs. do 2 f_equal. lia. }
+  rewrite (cstr_of_terminated (dropN k (buf s)) (slen s - k)).
+  - exact E.
+  - rewrite lenN_dropN. lia.
+  - rewrite nthN_dropN. replace (slen s - k + k) with (slen s) by lia. apply (inv_nul _ I).
+  - rewrite E. now apply nulfree_dropN.
+Qed.
+
+Definition carg_ok (c : carg) : Prop := match c with CLit l => nulfree l /\ lenN l < LIM | _ => True end.
+
+Lemma cstr_cregion s c : inv s -> nulfree (abs s) -> carg_ok c ->
+  match cregion s c with None => c = CNull | Some r => cstr r = clit_of (abs s) c end.
+Proof.
+  intros I F C. destruct c as [|l|off]; cbn [StrModel.cregion clit_of]; trivial.
+  - destruct C as [C _]. rewrite cstr_nulfree_app; trivial.
+  - rewrite cstr_region_self by (trivial; lia).
+    rewrite <- (lenN_abs s I). apply dropN_min_len.
+Qed.
+
+Lemma set_cstr_spec s c m :
+  inv s -> nulfree (abs s) -> carg_ok c ->
+  exists s', set_cstr s c m = (StOk, s') /\ inv s' /\ abs s' = takeN m (clit_of (abs s) c).
+Proof.
+  intros I F C. unfold StrModel.set_cstr.
+  pose proof (cstr_cregion s c I F C) as R.
+  destruct (cregion s c) as [r|] eqn:ER.
+  2:{ subst c. exists (clear s). destruct (clear_spec s I) as (A1 & A2 & _). splits; trivial.
+      rewrite A2. cbn [clit_of]. now rewrite takeN_nil. }
+  rewrite R. set (x := clit_of (abs s) c) in *.
+  destruct (0 <? N.min m (lenN x)) eqn:E0.
+  2:{ apply N.ltb_ge in E0. exists (clear s). destruct (clear_spec s I) as (A1 & A2 & _). splits; trivial.
+      rewrite A2. rewrite <- takeN_min_len. replace (N.min m (lenN x)) with 0 by lia. now rewrite takeN_0. }
+  apply N.ltb_lt in E0. set (n := N.min m (lenN x)) in *.
+  (* the request: n + 1 bytes *)
+  assert (Hx : lenN x < LIM \/ (exists off, c = CSelf off)).
+  { destruct c as [|l|off]; cbn [clit_of] in x; [discriminate ER| left; unfold x; apply C | right; now exists off]. }
+  assert (Hn : n + 1 < 4294967296).
+  { destruct Hx as [Hx|[off ->]]; [unfold LIM in Hx; lia|].
+    unfold n, x. cbn [clit_of]. rewrite lenN_dropN, (lenN_abs s I).
+    pose proof (inv_lt _ I). pose proof (cap_lt s I). lia. }
+  rewrite (u32_small _ Hn).
+  assert (Hd : takeN n r = takeN m x).
+  { unfold n. rewrite <- (takeN_min_len m x).
+    destruct c as [|l|off]; cbn [StrModel.cregion] in ER; inversion ER; subst r; cbn [clit_of] in x.
+    - unfold x. rewrite takeN_app_le; trivial. lia.
+    - fold x in R. clear ER.
+      set (k := N.min off (slen s)) in *.
+      pose proof (inv_len _ I) as Ln. pose proof (inv_lt _ I) as Lt.
+      assert (Ex : x = takeN (slen s - k) (dropN k (buf s))).
+      { unfold x. rewrite takeN_dropN_comm. unfold StrModel.abs.
+        replace (slen s - k + k) with (slen s) by lia.
+        rewrite <- (lenN_abs s I). unfold k. rewrite (lenN_abs s I).
+        rewrite <- (dropN_min_len off (takeN (slen s) (buf s))). rewrite lenN_takeN. do 2 f_equal. lia. }
+      transitivity (takeN (N.min m (lenN x)) (takeN (slen s - k) (dropN k (buf s)))); [|now rewrite <- Ex].
+      symmetry. apply takeN_takeN_le. rewrite Ex, lenN_takeN, lenN_dropN. lia. }
+  destruct Hx as [Hx|[off Hc]].
+  - destruct (ensure_noretain_ok s (n + 1) I) as (s1 & E1 & I1 & C1 & _).
+    { unfold LIM in *. lia. }
+    rewrite E1. eexists. split; [reflexivity|].
+    destruct (commit_set s1 (takeN n r) n I1) as (A1 & A2 & _).
+    + rewrite Hd, lenN_takeN. reflexivity.
+    + lia.
+    + split; [exact A1|]. rewrite A2. exact Hd.
+  - (* pointer into our own buffer: the request never exceeds the present capacity *)
+    subst c. cbn [clit_of] in x.
+    assert (Le : n + 1 <= cap s).
+    { unfold n, x. rewrite lenN_dropN, (lenN_abs s I). pose proof (inv_lt _ I). lia. }
+    rewrite (ensure_enough s (n + 1) false Le).
+    eexists. split; [reflexivity|].
+    destruct (commit_set s (takeN n r) n I) as (A1 & A2 & _).
+    + rewrite Hd, lenN_takeN. reflexivity.
+    + lia.
+    + split; [exact A1|]. rewrite A2. exact Hd.
+Qed.
+
+(* ---------------------------------------------------------------- SetFromString *)
+
+(* the source operand: a separate terminated String of bounded size, or the subject itself *)
+Definition osrc_ok (o : option src) : Prop := match o with Some x => src_ok x /\ snd x < LIM | None => True end.
+
+Lemma set_from_spec s o first after :
+  inv s -> osrc_ok o ->
+  exists s', set_from s o first after = (StOk, s') /\ inv s' /\
+             abs s' = l0_sub (src_bytes (osrc s o)) first after.
+Proof.
+  intros I O. unfold StrModel.set_from.
+  assert (SO : src_ok (osrc s o)) by (destruct o as [x|]; [apply O|now apply src_ok_of]).
+  set (ol := snd (osrc s o)).
+  assert (Lb : lenN (src_bytes (osrc s o)) = ol) by now apply lenN_src_bytes.
+  unfold l0_sub. rewrite Lb.
+  set (a := N.min after ol).
+  destruct (first <? a) eqn:E1; cbn [N.ltb].
+  2:{ replace (0 <? 0) with false by reflexivity.
+      exists (clear_and_flush s). destruct (inv_clear_and_flush s I) as (A1 & _ & A3 & _). splits; trivial. }
+  apply N.ltb_lt in E1.
+  assert (E2 : (0 <? a - first) = true) by (apply N.ltb_lt; lia). rewrite E2.
+  set (len := a - first) in *.
+  assert (Bl : len + 1 < 4294967296 /\ (o <> None -> len + 1 <= LIM) /\ (o = None -> len + 1 <= cap s)).
+  { destruct o as [x|].
+    - destruct O as [_ O2]. cbn [StrModel.osrc] in ol. unfold LIM in *. splits; [lia|intros; lia|discriminate].
+    - cbn [StrModel.osrc src_of snd] in ol. pose proof (inv_lt _ I). pose proof (cap_lt s I).
+      splits; [lia|congruence|intros; lia]. }
+  destruct Bl as (B1 & B2 & B3). rewrite (u32_small _ B1).
+  assert (EX : exists s1, ensure s (len + 1) false false = (StOk, s1) /\ inv s1 /\ len + 1 <= cap s1 /\
+                          takeN len (dropN first (fst (osrc s1 o))) = takeN len (dropN first (src_bytes (osrc s o)))).
+  { destruct o as [x|].
+    - destruct (ensure_noretain_ok s (len + 1) I) as (s1 & E & I1 & C1 & _); [apply B2; discriminate|].
+      exists s1. splits; trivial. cbn [StrModel.osrc]. unfold src_bytes.
+      rewrite takeN_dropN_comm. rewrite takeN_dropN_comm. f_equal. rewrite takeN_takeN_le; trivial.
+      unfold len, a, ol in *. cbn [StrModel.osrc] in *. lia.
+    - exists s. rewrite (ensure_enough s (len + 1) false (B3 eq_refl)). splits; trivial; [now apply B3|].
+      cbn [StrModel.osrc src_of fst snd]. unfold src_bytes. cbn [fst snd].
+      rewrite takeN_dropN_comm. rewrite takeN_dropN_comm. f_equal. rewrite takeN_takeN_le; trivial.
+      unfold len, a, ol in *. cbn [StrModel.osrc src_of snd] in *. lia. }
+  destruct EX as (s1 & E & I1 & C1 & D). rewrite E. eexists. split; [reflexivity|].
+  destruct (commit_set s1 (takeN len (dropN first (fst (osrc s1 o)))) len I1) as (A1 & A2 & _).
+  - rewrite D, lenN_takeN, lenN_dropN, Lb. lia.
+  - lia.
+  - split; [exact A1|]. rewrite A2. exact D.
+Qed.
+
+(* ---------------------------------------------------------------- operator+= *)
+
+Lemma append_s_spec s o :
+  inv s -> osrc_ok o -> slen s + snd (osrc s o) + 1 <= LIM ->
+  inv (append_s s o) /\ abs (append_s s o) = abs s ++ src_bytes (osrc s o).
+Proof.
+  intros I O B. unfold StrModel.append_s.
+  assert (SO : src_ok (osrc s o)) by (destruct o as [x|]; [apply O|now apply src_ok_of]).
+  set (ol := snd (osrc s o)) in *.
+  assert (Lb : lenN (src_bytes (osrc s o)) = ol) by now apply lenN_src_bytes.
+  destruct (0 <? ol) eqn:E0.
+  2:{ apply N.ltb_ge in E0. split; [exact I|]. rewrite (lenN_0 (src_bytes (osrc s o))) by lia. now rewrite app_nil_r. }
+  rewrite u32_small by (unfold LIM in B; lia).
+  destruct (ensure_grow_ok s (slen s + ol + 1) I B) as (s1 & E & I1 & C1 & L1 & A1 & P1).
+  rewrite E.
+  assert (D : takeN (ol + 1) (fst (osrc s1 o)) = src_bytes (osrc s o) ++ [0]).
+  { destruct o as [x|]; cbn [StrModel.osrc].
+    - apply (src_take_nul x). apply O.
+    - cbn [StrModel.osrc src_of snd] in ol. cbn [src_of fst]. unfold ol. rewrite P1.
+      rewrite (take_with_nul s I). reflexivity. }
+  rewrite D. rewrite <- Lb. rewrite <- A1.
+  destruct (commit_append s1 (src_bytes (osrc s o)) I1) as (X1 & X2 & _).
+  - rewrite Lb. lia.
+  - split; trivial.
+Qed.
+
+Lemma append_c_spec s c :
+  inv s -> nulfree (abs s) -> carg_ok c -> slen s + lenN (clit_of (abs s) c) + 1 <= LIM ->
+  inv (append_c s c) /\ abs (append_c s c) = abs s ++ clit_of (abs s) c.
+Proof.
+  intros I F C B. unfold StrModel.append_c.
+  pose proof (cstr_cregion s c I F C) as R.
+  destruct (cregion s c) as [r|] eqn:ER.
+  2:{ subst c. cbn [clit_of]. split; [exact I|now rewrite app_nil_r]. }
+  rewrite R. set (x := clit_of (abs s) c) in *.
+  destruct (0 <? lenN x) eqn:E0.
+  2:{ apply N.ltb_ge in E0. split; [exact I|]. rewrite (lenN_0 x) by lia. now rewrite app_nil_r. }
+  destruct c as [|l|off]; [discriminate ER| |]; cbn [clocal].
+  - cbn [StrModel.cregion] in ER. inversion ER; subst r. cbn [clit_of] in x.
+    rewrite u32_small by (unfold LIM in B; lia).
+    destruct (ensure_grow_ok s (slen s + lenN x + 1) I B) as (s1 & E & I1 & C1 & L1 & A1 & P1).
+    rewrite E. unfold x. rewrite takeN_all by (rewrite lenN_app, lenN_cons, lenN_nil; lia).
+    rewrite L1. rewrite <- A1. rewrite <- L1.
+    destruct (commit_append s1 l I1) as (X1 & X2 & _); [fold x; lia|]. split; trivial.
+  - destruct (append_s_spec s (Some (src_lit x)) I) as (X1 & X2).
+    + split; [apply src_ok_lit|]. cbn [src_lit snd]. unfold LIM in *. lia.
+    + cbn [StrModel.osrc src_lit snd]. exact B.
+    + split; [exact X1|]. rewrite X2. cbn [StrModel.osrc]. now rewrite src_bytes_lit.
+Qed.
+
+Lemma append_ch_spec s ch :
+  inv s -> slen s + 2 <= LIM ->
+  inv (append_ch s ch) /\ abs (append_ch s ch) = abs s ++ [ch].
+Proof.
+  intros I B. unfold StrModel.append_ch.
+  rewrite u32_small by (unfold LIM in B; lia).
+  destruct (ensure_grow_ok s (slen s + 2) I B) as (s1 & E & I1 & C1 & L1 & A1 & P1).
+  rewrite E. rewrite upd_upd_adjacent by (rewrite (inv_len _ I1); lia).
+  rewrite <- L1, <- A1.
+  destruct (commit_append s1 [ch] I1) as (X1 & X2 & _).
+  - rewrite lenN_cons, lenN_nil. lia.
+  - split; [exact X1|exact X2].
+Qed.
+
+(* ---------------------------------------------------------------- InsertCharsAux *)
+
+Lemma insert_core s i D :
+  inv s -> i <= slen s -> slen s + lenN D + 1 <= cap s ->
+  let old := slen s in
+  let b := buf s in
+  let b1 := blit b (i + lenN D) (takeN (old - i) (dropN i b)) in
+  let b2 := blit b1 i D in
+  let s' := commit s (upd b2 (old + lenN D) 0) (old + lenN D) in
+  inv s' /\ abs s' = takeN i (abs s) ++ D ++ dropN i (abs s).
+Proof.
+  intros I Hi C old b b1 b2 s'.
+  pose proof (inv_len _ I) as Ln. pose proof (inv_lt _ I) as Lt. fold b in Ln. fold old in Lt.
+  set (X := takeN (old - i) (dropN i b)).
+  assert (LX : lenN X = old - i) by (unfold X; rewrite lenN_takeN, lenN_dropN; lia).
+  assert (Lb1 : lenN b1 = cap s) by (unfold b1; fold X; rewrite lenN_blit; lia).
+  assert (Lb2 : lenN b2 = cap s) by (unfold b2; rewrite lenN_blit; lia).
+  destruct (commit_spec s (upd b2 (old + lenN D) 0) (old + lenN D) I) as (A1 & A2 & A3 & _).
+  - rewrite lenN_upd; lia.
+  - unfold old. lia.
+  - apply nthN_upd_same. lia.
+  - split; [exact A1|]. fold s' in A3. rewrite A3.
+    rewrite takeN_upd_before by lia.
+    (* the first old+|D| bytes of b2 *)
+    assert (E2 : takeN (i + lenN D) b2 = takeN i b ++ D).
+    { unfold b2. rewrite takeN_blit_cover by lia. f_equal. unfold b1. apply takeN_blit_before; lia. }
+    assert (E3 : dropN (i + lenN D) b2 = X ++ dropN (i + lenN D + lenN X) b).
+    { unfold b2. rewrite dropN_blit_after by lia. unfold b1. fold X. unfold blit.
+      rewrite dropN_app_ge by (rewrite lenN_takeN; lia). rewrite lenN_takeN.
+      replace (i + lenN D - N.min (i + lenN D) (lenN b)) with 0 by lia. now rewrite dropN_0. }
+    rewrite <- (takeN_dropN (i + lenN D) b2). rewrite E2, E3.
+    rewrite takeN_app_ge by (rewrite lenN_app, lenN_takeN; lia).
+    rewrite lenN_app, lenN_takeN.
+    replace (old + lenN D - (N.min i (lenN b) + lenN D)) with (lenN X) by lia.
+    rewrite takeN_app_exact. rewrite <- app_assoc. f_equal.
+    + unfold StrModel.abs. fold b old. rewrite takeN_takeN_le; trivial.
+    + f_equal. unfold X, StrModel.abs. fold b old. rewrite takeN_dropN_comm. do 2 f_equal. lia.
+Qed.
+
+Lemma concat_rep1 {A} (x : list A) : concat (repN x 1) = x.
+Proof. unfold repN. cbn. apply app_nil_r. Qed.
+Lemma lenN_concat_rep {A} (x : list A) k : lenN (concat (repN x k)) = lenN x * k.
+Proof.
+  unfold repN. rewrite <- (N2Nat.id k) at 2. induction (N.to_nat k) as [|j IH]; cbn [repeat concat].
+  - rewrite lenN_nil. lia.
+  - rewrite lenN_app, IH. lia.
+Qed.
+
+(* the part of InsertCharsAux after the early exits and the self-entanglement copy *)
+Lemma insert_aux_ext s idx r n count :
+  inv s -> nthN 0 r <> 0 -> n <> 0 -> n <= lenN r -> slen s + n * count + 1 <= LIM ->
+  exists s', insert_aux s idx (Some r) false n count = (StOk, s') /\ inv s' /\
+             abs s' = l0_insert (abs s) idx (concat (repN (takeN n r) count)).
+Proof.
+  intros I R0 N0 Nr B. unfold StrModel.insert_aux.
+  apply N.eqb_neq in R0, N0. rewrite R0, N0. cbn [orb].
+  assert (E1 : (2147483646 <=? n * count + slen s) = false) by (apply N.leb_gt; unfold LIM in B; lia). rewrite E1.
+  rewrite u32_small by (unfold LIM in B; lia).
+  set (D := concat (repN (takeN n r) count)).
+  assert (LD : lenN D = n * count) by (unfold D; rewrite lenN_concat_rep, lenN_takeN; f_equal; lia).
+  unfold l0_insert. rewrite (lenN_abs s I).
+  destruct (n * count =? 0) eqn:E2.
+  { apply N.eqb_eq in E2. exists s. splits; trivial. rewrite (lenN_0 D) by lia. cbn [app]. now rewrite takeN_dropN. }
+  rewrite u32_small by (unfold LIM in B; lia).
+  destruct (ensure_grow_ok s (slen s + n * count + 1) I B) as (s1 & E & I1 & C1 & L1 & A1 & P1).
+  rewrite E. eexists. split; [reflexivity|].
+  rewrite <- LD. rewrite <- L1, <- A1.
+  apply (insert_core s1 (N.min idx (slen s1)) D I1); lia.
+Qed.
+
+Lemma insert_chars_spec s idx c m :
+  inv s -> nulfree (abs s) -> carg_ok c -> slen s + lenN (clit_of (abs s) c) + 1 <= LIM ->
+  exists s', insert_chars s idx c m = (StOk, s') /\ inv s' /\
+             abs s' = l0_insert (abs s) idx (takeN m (clit_of (abs s) c)).
+Proof.
+  intros I F C B. unfold StrModel.insert_chars.
+  pose proof (cstr_cregion s c I F C) as R.
+  assert (Triv : forall x, lenN x = 0 -> l0_insert (abs s) idx x = abs s).
+  { intros x Hx. rewrite (lenN_0 x Hx). unfold l0_insert. cbn [app]. apply takeN_dropN. }
+  destruct (cregion s c) as [r|] eqn:ER.
+  2:{ subst c. exists s. splits; trivial. cbn [clit_of]. rewrite Triv; trivial. now rewrite takeN_nil. }
+  set (x := clit_of (abs s) c) in *.
+  assert (R0 : nthN 0 r = nthN 0 x \/ (nthN 0 r = 0 /\ x = [])).
+  { destruct r as [|a t]; cbn [cstr] in R.
+    - right. split; [reflexivity|now rewrite <- R].
+    - destruct (a =? 0) eqn:Ea; [right; split; [apply N.eqb_eq in Ea; now rewrite Ea|now rewrite <- R]|].
+      left. rewrite <- R. reflexivity. }
+  destruct ((nthN 0 r =? 0) || (m =? 0)) eqn:E0.
+  { exists s. splits; trivial. rewrite Triv; trivial. rewrite lenN_takeN.
+    apply orb_true_iff in E0. destruct E0 as [E0|E0]; apply N.eqb_eq in E0; [|lia].
+    destruct R0 as [R0|[_ ->]]; [|rewrite lenN_nil; lia].
+    destruct x as [|a t]; [rewrite lenN_nil; lia|]. rewrite nthN_cons_0 in R0.
+    pose proof (cstr_is_nulfree r) as Fr. rewrite R in Fr. inversion Fr; subst. congruence. }
+  apply orb_false_iff in E0. destruct E0 as [E0 E0']. apply N.eqb_neq in E0, E0'.
+  rewrite R. set (n := N.min (lenN x) m).
+  assert (Hn : n <> 0).
+  { unfold n. destruct R0 as [R0|[R0 _]]; [|congruence]. destruct x; [cbn in R0; congruence|rewrite lenN_cons; lia]. }
+  destruct c as [|l|off]; [discriminate ER| |]; cbn [clocal].
+  - (* a separate array *)
+    cbn [StrModel.cregion] in ER. inversion ER; subst r. cbn [clit_of] in x.
+    destruct (insert_aux_ext s idx (l ++ [0]) n 1 I E0 Hn) as (s' & E & I' & A').
+    + unfold n, x. rewrite lenN_app. lia.
+    + unfold n. fold x in B. lia.
+    + exists s'. splits; trivial. rewrite A'. rewrite concat_rep1. f_equal.
+      unfold n. rewrite takeN_app_le by (fold x; lia). fold x. rewrite N.min_comm. apply takeN_min_len.
+  - (* a pointer into our own array: a temporary copy is inserted *)
+    unfold StrModel.insert_aux. apply N.eqb_neq in E0, Hn. rewrite E0, Hn. cbn [orb].
+    apply N.eqb_neq in E0, Hn. rewrite R.
+    set (t := takeN n x).
+    assert (Lt : lenN t = n) by (unfold t, n; rewrite lenN_takeN; lia).
+    rewrite Lt. replace (N.min n n) with n by lia.
+    (* from here on it is the external case with the copy t ++ [0] *)
+    destruct (insert_aux_ext s idx (t ++ [0]) n 1 I) as (s' & E & I' & A').
+    + rewrite nthN_app_l by lia. unfold t. rewrite nthN_takeN by lia.
+      destruct R0 as [R0|[R0 _]]; congruence.
+    + exact Hn.
+    + rewrite lenN_app. lia.
+    + unfold n. lia.
+    + unfold StrModel.insert_aux in E. apply N.eqb_neq in Hn.
+      assert (E0t : (nthN 0 (t ++ [0]) =? 0) = false).
+      { apply N.eqb_neq. rewrite nthN_app_l by (apply N.eqb_neq in Hn; lia). unfold t. rewrite nthN_takeN by (apply N.eqb_neq in Hn; lia).
+        destruct R0 as [R0|[R0 _]]; congruence. }
+      rewrite E0t, Hn in E. cbn [orb] in E.
+      exists s'. split; [exact E|]. split; [exact I'|]. rewrite A'. rewrite concat_rep1. f_equal.
+      rewrite takeN_app_le by lia. rewrite takeN_all by lia. unfold t, n. rewrite N.min_comm. apply takeN_min_len.
+Qed.
+
+(* ---------------------------------------------------------------- capacity operations *)
+
+(* Prealloc never changes the value, whatever it is asked for (the repaired F27) *)
+Lemma prealloc_safe s n : inv s -> inv (snd (prealloc s n)) /\ abs (snd (prealloc s n)) = abs s.
+Proof.
+  intros I. unfold StrModel.prealloc.
+  pose proof (ensure_grow s (u32 (n + 1)) I) as G.
+  destruct (ensure s (u32 (n + 1)) true false) as [[|] s']; cbn [snd].
+  - destruct G as (G1 & _ & G3 & G4). split; trivial. now apply abs_of_prefix.
+  - subst s'. split; trivial.
+Qed.
+Lemma prealloc_ok s n : inv s -> n + 1 <= LIM ->
+  exists s', prealloc s n = (StOk, s') /\ inv s' /\ abs s' = abs s /\ n + 1 <= cap s' /\ slen s' = slen s.
+Proof.
+  intros I B. unfold StrModel.prealloc. rewrite u32_small by (unfold LIM in B; lia).
+  destruct (ensure_grow_ok s (n + 1) I B) as (s1 & E & I1 & C1 & L1 & A1 & _).
+  exists s1. splits; trivial.
+Qed.
+
+(* ShrinkToFit never changes the value either (the repaired F31) *)
+Lemma shrink_safe s extra : inv s -> inv (snd (shrink_to_fit s extra)) /\ abs (snd (shrink_to_fit s extra)) = abs s.
+Proof.
+  intros I. unfold StrModel.shrink_to_fit.
+  pose proof (inv_lt _ I) as Lt. pose proof (cap_lt s I) as Cl.
+  set (req := u32 (slen s + 1 + N.min extra (NOLIMIT - (slen s + 1)))).
+  assert (R : slen s < req).
+  { unfold req, NOLIMIT. rewrite u32_small by lia. lia. }
+  pose proof (ensure_shrink s req I R) as G.
+  destruct (ensure s req true true) as [[|] s']; cbn [snd].
+  - destruct G as (G1 & G2 & _). split; trivial.
+  - subst s'. split; trivial.
+Qed.
+
+Lemma trunc_spec s l : inv s -> l <= slen s ->
+  inv (commit s (upd (buf s) l 0) l) /\ abs (commit s (upd (buf s) l 0) l) = takeN l (abs s).
+Proof.
+  intros I L. pose proof (inv_len _ I) as Ln. pose proof (inv_lt _ I) as Lt.
+  destruct (commit_spec s (upd (buf s) l 0) l I) as (A1 & A2 & A3 & _).
+  - rewrite lenN_upd; lia.
+  - lia.
+  - apply nthN_upd_same. lia.
+  - split; trivial. rewrite A3. rewrite takeN_upd_before by lia.
+    unfold StrModel.abs. now rewrite takeN_takeN_le.
+Qed.
+Lemma trunc_chars_spec s n : inv s -> inv (trunc_chars s n) /\ abs (trunc_chars s n) = l0_trunc_chars (abs s) n.
+Proof.
+  intros I. unfold StrModel.trunc_chars, l0_trunc_chars. rewrite (lenN_abs s I). apply trunc_spec; trivial. lia.
+Qed.
+Lemma trunc_to_spec s n : inv s -> inv (trunc_to s n) /\ abs (trunc_to s n) = l0_trunc_to (abs s) n.
+Proof.
+  intros I. unfold StrModel.trunc_to, l0_trunc_to. rewrite (lenN_abs s I). apply trunc_spec; trivial. lia.
+Qed.
+
+(* ---------------------------------------------------------------- Flatten / Unflatten *)
+
+Lemma flatten_spec s : inv s -> flatten1 s = abs s ++ [0].
+Proof. intros I. unfold StrModel.flatten1. now apply take_with_nul. Qed.
+
+Lemma cstr_fixpoint_unterminated bytes : list_eqb (cstr bytes) bytes = true <-> nulfree bytes.
+Proof.
+  induction bytes as [|x t IH]; cbn [cstr].
+  - split; [constructor|reflexivity].
+  - destruct (x =? 0) eqn:E.
+    + split; [discriminate|]. intros H. inversion H; subst. apply N.eqb_eq in E. congruence.
+    + cbn [list_eqb]. rewrite N.eqb_refl. cbn [andb]. rewrite IH. split.
+      * intros H. constructor; [now apply N.eqb_neq|assumption].
+      * intros H. now inversion H.
+Qed.
+
+(* parsing: input with a terminator yields the bytes before it; unterminated (or empty) input is rejected
+   and leaves the String alone (the repaired F28) *)
+Lemma unflatten_spec s bytes :
+  inv s -> lenN bytes < LIM ->
+  (nulfree bytes -> unflatten1 s bytes = (StErr, s)) /\
+  (~ nulfree bytes -> exists s', unflatten1 s bytes = (StOk, s') /\ inv s' /\ abs s' = cstr bytes).
+Proof.
+  intros I B. unfold StrModel.unflatten1. split; intros H.
+  - apply cstr_fixpoint_unterminated in H. now rewrite H.
+  - destruct (list_eqb (cstr bytes) bytes) eqn:E; [apply cstr_fixpoint_unterminated in E; contradiction|].
+    (* SetCstr of an external array: its specification does not look at the subject's value *)
+    unfold StrModel.set_cstr. cbn [StrModel.cregion].
+    rewrite (cstr_nulfree_app (cstr bytes) []) by apply cstr_is_nulfree.
+    set (x := cstr bytes).
+    assert (Lx : lenN x <= lenN bytes).
+    { unfold x. clear. induction bytes as [|a t IH]; cbn [cstr]; [lia|]. destruct (a =? 0); rewrite ?lenN_cons, ?lenN_nil; lia. }
+    replace (N.min NOLIMIT (lenN x)) with (lenN x) by (unfold NOLIMIT, LIM in *; lia).
+    destruct (0 <? lenN x) eqn:E0.
+    2:{ apply N.ltb_ge in E0. exists (clear s). destruct (clear_spec s I) as (A1 & A2 & _). splits; trivial.
+        rewrite A2. symmetry. apply lenN_0. lia. }
+    rewrite u32_small by (unfold LIM in *; lia).
+    destruct (ensure_noretain_ok s (lenN x + 1) I) as (s1 & E1 & I1 & C1 & _); [unfold LIM in *; lia|].
+    rewrite E1. eexists. split; [reflexivity|].
+    rewrite takeN_app_le by lia. rewrite takeN_all by lia.
+    destruct (commit_set s1 x (lenN x) I1 eq_refl) as (A1 & A2 & _); [lia|]. split; trivial.
+Qed.
+
+(* ---------------------------------------------------------------- constructors *)
+
+Lemma ctor_sub_spec o first after : src_ok o -> snd o < LIM ->
+  inv (ctor_sub o first after) /\ abs (ctor_sub o first after) = l0_sub (src_bytes o) first after.
+Proof.
+  intros O B. unfold StrModel.ctor_sub.
+  destruct inv_empty1 as (I0 & _).
+  destruct (set_from_spec empty1 (Some o) first after I0) as (s' & E & I' & A'); [split; trivial|].
+  rewrite E. cbn [snd]. split; trivial.
+Qed.
+Lemma l0_sub_all l : l0_sub l 0 NOLIMIT = l \/ NOLIMIT < lenN l.
+Proof.
+  destruct (N.le_gt_cases (lenN l) NOLIMIT) as [H|H]; [left|now right].
+  unfold l0_sub. rewrite N.min_r by lia. destruct (0 <? lenN l) eqn:E.
+  - rewrite dropN_0, N.sub_0_r. apply takeN_all. lia.
+  - apply N.ltb_ge in E. symmetry. apply lenN_0. lia.
+Qed.
+Lemma l0_sub_all' l : lenN l < LIM -> l0_sub l 0 NOLIMIT = l.
+Proof. intros H. destruct (l0_sub_all l) as [E|E]; trivial. unfold NOLIMIT, LIM in *. lia. Qed.
+Lemma ctor_copy_spec o : src_ok o -> snd o < LIM -> inv (ctor_copy o) /\ abs (ctor_copy o) = src_bytes o.
+Proof.
+  intros O B. unfold StrModel.ctor_copy. fold (ctor_sub o 0 NOLIMIT).
+  destruct (ctor_sub_spec o 0 NOLIMIT O B) as (I & A). split; trivial. rewrite A.
+  apply l0_sub_all'. now rewrite lenN_src_bytes.
+Qed.
+Lemma ctor_copy_pre_spec o extra : src_ok o -> snd o < LIM ->
+  inv (ctor_copy_pre o extra) /\ abs (ctor_copy_pre o extra) = src_bytes o.
+Proof.
+  intros O B. unfold StrModel.ctor_copy_pre.
+  destruct inv_empty1 as (I0 & _).
+  destruct (prealloc_safe empty1 (u32 (snd o + extra)) I0) as (I1 & _).
+  destruct (set_from_spec (snd (prealloc empty1 (u32 (snd o + extra)))) (Some o) 0 NOLIMIT I1) as (s' & E & I' & A'); [split; trivial|].
+  rewrite E. cbn [snd]. split; trivial. rewrite A'. cbn [StrModel.osrc]. apply l0_sub_all'. now rewrite lenN_src_bytes.
+Qed.
+Lemma ctor_pre_lit_spec pre l : nulfree l -> lenN l < LIM ->
+  inv (ctor_pre_lit pre l) /\ abs (ctor_pre_lit pre l) = l.
+Proof.
+  intros F B. unfold StrModel.ctor_pre_lit.
+  destruct inv_empty1 as (I0 & _ & A0 & _).
+  destruct (prealloc_safe empty1 pre I0) as (I1 & A1).
+  destruct (set_cstr_spec (snd (prealloc empty1 pre)) (CLit l) NOLIMIT I1) as (s' & E & I' & A').
+  - rewrite A1, A0. constructor.
+  - split; trivial.
+  - rewrite E. cbn [snd]. split; trivial. rewrite A'. cbn [clit_of]. apply takeN_all. unfold NOLIMIT, LIM in *. lia.
+Qed.
+
+(* ---------------------------------------------------------------- in-place edits *)
+
+(* write (data ++ NUL) at offset i <= Length() and set the length to i + |data| *)
+Lemma commit_at s i data :
+  inv s -> i <= slen s -> i + lenN data + 1 <= cap s ->
+  let s' := commit s (blit (buf s) i (data ++ [0])) (i + lenN data) in
+  inv s' /\ abs s' = takeN i (abs s) ++ data.
+Proof.
+  intros I Hi C s'. pose proof (inv_len _ I) as Ln. pose proof (inv_lt _ I) as Lt.
+  assert (Ld : lenN (data ++ [0]) = lenN data + 1) by (rewrite lenN_app, lenN_cons, lenN_nil; lia).
+  destruct (commit_spec s (blit (buf s) i (data ++ [0])) (i + lenN data) I) as (A1 & A2 & A3 & _).
+  - rewrite lenN_blit; lia.
+  - lia.
+  - rewrite nthN_blit_in by lia. replace (i + lenN data - i) with (lenN data) by lia.
+    rewrite nthN_app_r by lia. now rewrite N.sub_diag.
+  - unfold s'. split; trivial. rewrite A3.
+    rewrite <- (takeN_takeN_le (i + lenN data) (i + lenN (data ++ [0]))) by lia.
+    rewrite takeN_blit_cover by lia.
+    rewrite takeN_app_ge by (rewrite lenN_takeN; lia). rewrite lenN_takeN. f_equal.
+    + unfold StrModel.abs. now rewrite takeN_takeN_le.
+    + replace (i + lenN data - N.min i (lenN (buf s))) with (lenN data) by lia. apply takeN_app_exact.
+Qed.
+
+(* remove k bytes at idx: memmove(b+idx, b+idx+k, 1+len-(idx+k)); SetLength(len-k) *)
+Lemma cut_spec s idx k : inv s -> idx + k <= slen s ->
+  inv (cut s idx k) /\ abs (cut s idx k) = takeN idx (abs s) ++ dropN (idx + k) (abs s).
+Proof.
+  intros I H. unfold StrModel.cut.
+  pose proof (inv_len _ I) as Ln. pose proof (inv_lt _ I) as Lt.
+  set (Y := dropN (idx + k) (abs s)).
+  assert (LY : lenN Y = slen s - (idx + k)) by (unfold Y; rewrite lenN_dropN, (lenN_abs s I); lia).
+  assert (E : takeN (1 + slen s - (idx + k)) (dropN (idx + k) (buf s)) = Y ++ [0]).
+  { rewrite takeN_dropN_comm. replace (1 + slen s - (idx + k) + (idx + k)) with (slen s + 1) by lia.
+    rewrite (take_with_nul s I). unfold Y. rewrite dropN_app_le; trivial. rewrite (lenN_abs s I). lia. }
+  rewrite E. replace (slen s - k) with (idx + lenN Y) by lia.
+  apply commit_at; trivial; lia.
+Qed.
+
+Lemma map_content_spec s f : inv s -> lenN (f (abs s)) = slen s ->
+  inv (map_content s f) /\ abs (map_content s f) = f (abs s).
+Proof.
+  intros I L. unfold StrModel.map_content. fold (abs s).
+  pose proof (inv_len _ I) as Ln. pose proof (inv_lt _ I) as Lt. pose proof (inv_nul _ I) as Nu.
+  set (b' := f (abs s) ++ dropN (slen s) (buf s)).
+  assert (Lb : lenN b' = cap s) by (unfold b'; rewrite lenN_app, lenN_dropN; lia).
+  assert (T : takeN (slen s) b' = f (abs s)) by (unfold b'; rewrite <- L; apply takeN_app_exact).
+  assert (Nth : forall j, slen s <= j -> nthN j b' = nthN j (buf s)).
+  { intros j Hj. unfold b'. rewrite nthN_app_r by lia. rewrite L, nthN_dropN. f_equal. lia. }
+  destruct s as [b|h n c]; cbn [StrModel.wbuf].
+  - cbn [StrModel.slen StrModel.cap buf] in *. destruct I as (_ & _ & _ & I4).
+    assert (EM : nthN M b' = nthN M b) by (apply Nth; lia).
+    unfold StrCore.inv, StrModel.abs. cbn [StrModel.slen StrModel.cap buf]. rewrite EM.
+    splits; trivial. rewrite Nth by lia. exact Nu.
+  - cbn [StrModel.slen StrModel.cap buf] in *. destruct I as (_ & _ & _ & I4).
+    unfold StrCore.inv, StrModel.abs. cbn [StrModel.slen StrModel.cap buf].
+    splits; trivial; try lia. rewrite Nth by lia. exact Nu.
+Qed.
+
+Lemma reverse_spec s : inv s -> inv (reverse1 s) /\ abs (reverse1 s) = rev (abs s).
+Proof. intros I. apply map_content_spec; trivial. now rewrite lenN_rev, (lenN_abs s I). Qed.
+
+Lemma lenN_replace_ch_aux l a b max : lenN (fst (replace_ch_aux l a b max)) = lenN l.
+Proof.
+  revert max. induction l as [|x t IH]; intros max; cbn [replace_ch_aux]; [reflexivity|].
+  destruct ((0 <? max) && (x =? a)).
+  - specialize (IH (max - 1)). destruct (replace_ch_aux t a b (max - 1)). cbn [fst] in *. rewrite !lenN_cons. lia.
+  - specialize (IH max). destruct (replace_ch_aux t a b max). cbn [fst] in *. rewrite !lenN_cons. lia.
+Qed.
+Lemma lenN_replace_ch l a b max from : lenN (fst (l0_replace_ch l a b max from)) = lenN l.
+Proof.
+  unfold l0_replace_ch. destruct (negb (a =? b) && (from <? lenN l)) eqn:E; [|reflexivity].
+  apply andb_true_iff in E. destruct E as [_ E]. apply N.ltb_lt in E.
+  pose proof (lenN_replace_ch_aux (dropN from l) a b max) as H.
+  destruct (replace_ch_aux (dropN from l) a b max). cbn [fst] in *.
+  rewrite lenN_app, H, lenN_takeN, lenN_dropN. lia.
+Qed.
+Lemma replace_ch_spec s a b max from : inv s ->
+  inv (fst (replace_ch1 s a b max from)) /\ abs (fst (replace_ch1 s a b max from)) = fst (l0_replace_ch (abs s) a b max from) /\
+  snd (replace_ch1 s a b max from) = snd (l0_replace_ch (abs s) a b max from).
+Proof.
+  intros I. unfold StrModel.replace_ch1.
+  pose proof (lenN_replace_ch (abs s) a b max from) as L.
+  destruct (l0_replace_ch (abs s) a b max from) as [l k]. cbn [fst snd] in *.
+  destruct (map_content_spec s (fun _ => l) I) as (A1 & A2).
+  - rewrite L. apply (lenN_abs s I).
+  - splits; trivial.
 Qed.
 
 End Ops.
